@@ -23,10 +23,13 @@ mod buztable;
 mod c01;
 mod c09;
 mod c10;
+mod c17;
 mod clonechecks;
 mod clonelab;
 mod codec;
+mod httpd;
 mod memdev;
+mod netchecks;
 mod sched;
 mod subjects;
 mod universe;
@@ -75,6 +78,7 @@ fn main() {
             }
             let level = match id.as_str() {
                 "C09" | "C01" | "C11" | "C12" => "model_checking",
+                "C08" | "C05" | "C04" | "C15" => "fault_enumeration",
                 _ => "exploration",
             };
             let mut rep = Report::new(&id, level, &tier, seed);
@@ -84,6 +88,9 @@ fn main() {
                 "C01" => c01::c01(&mut rep),
                 "C11" => c01::c11(&mut rep),
                 "C12" => c01::c12(&mut rep),
+                "C17" => c17::run(&mut rep),
+                "C07" => netchecks::c07(&mut rep),
+                "C08" => netchecks::c08(&mut rep),
                 "C02" => clonechecks::c02(&mut rep),
                 "C03" => clonechecks::c03(&mut rep),
                 "C06" => clonechecks::c06(&mut rep),
@@ -102,6 +109,8 @@ fn main() {
             let still = match id.as_str() {
                 "C09" => c09::replay(&detail),
                 "C10" => c10::replay(&detail),
+                "C07" | "C08" => netchecks::replay(&id, &detail),
+                "C17" => c17::replay(&detail),
                 "C01" | "C11" | "C12" => c01::replay(&id, &detail),
                 "C02" | "C03" | "C06" | "C13" => clonechecks::replay(&id, &detail),
                 _ => {
